@@ -782,6 +782,66 @@ fn scale_cmd(a: &Args) -> i32 {
     0
 }
 
+/// Print the explicit histories that the generator produces for a run range (one
+/// per line: profile, layout, history), executed once natively on the way. Used to
+/// feed the same histories to the interpreter cross-check.
+fn dump(a: &Args) -> i32 {
+    let pname = a.get("--profile").unwrap_or_else(|| die("--profile required"));
+    let profile = profiles::profile(pname).unwrap_or_else(|| die("unknown profile"));
+    let seed = a.num("--seed", 1);
+    shared::init();
+    alloc::init(true);
+    alloc::set_fault_reporter(report::on_fault);
+    install_panic_hook();
+    report::SOFT_MASK.store(report::soft_mask_for(pname), Relaxed);
+    let none = Faults::default();
+    for run in a.num("--from", 0)..a.num("--to", 10) {
+        let mut cfg_rng = Rng(mix(seed, run, 3));
+        let kn = profiles::knobs(pname, a.has("--thorough"), &mut cfg_rng);
+        let layout_seed = mix(seed, run, 1);
+        let opts = ExecOpts { dtor_downgrade_p: kn.dtor_downgrade_p, want_snaps: profile.want_snaps, record_dtors: false, layout_noise: false, c16_markers: false };
+        let head = ctx_head(pname, seed, run, 0, &[layout_seed], &none);
+        let o = execute(&head, Source::Generate { kn: &kn, hist_seed: mix(seed, run, 0) }, &none, layout_seed, &opts);
+        let mut text = ops_text(&o.ops);
+        for (k, ops) in &o.inline {
+            for op in ops {
+                text.push_str(&format!(";@{k} {}", op.text()));
+            }
+        }
+        out(&format!("{pname}\t{layout_seed}\t{text}\n"));
+    }
+    0
+}
+
+/// Replay many explicit histories (the lines written by `dump`) in one process.
+fn replay_many(a: &Args) -> i32 {
+    let path = a.get("--file").unwrap_or_else(|| die("--file required"));
+    let text = std::fs::read_to_string(path).unwrap_or_else(|e| die(&format!("{path}: {e}")));
+    shared::init();
+    alloc::init(true);
+    alloc::set_fault_reporter(report::on_fault);
+    install_panic_hook();
+    let mut n = 0;
+    for line in text.lines() {
+        let parts: Vec<&str> = line.split('\t').collect();
+        if parts.len() != 3 {
+            continue;
+        }
+        let profile = profiles::profile(parts[0]).unwrap_or_else(|| die("unknown profile"));
+        report::SOFT_MASK.store(report::soft_mask_for(parts[0]), Relaxed);
+        let layout: u64 = parts[1].parse().unwrap_or(1);
+        let (ops, inline) = ops::parse_history(parts[2]).unwrap_or_else(|e| die(&e));
+        let faults = Faults { inline, ..Faults::default() };
+        let opts = ExecOpts { dtor_downgrade_p: 0, want_snaps: profile.want_snaps, record_dtors: false, layout_noise: false, c16_markers: false };
+        let head = ctx_head(parts[0], 0, n, 0, &[layout], &faults);
+        out(&format!("{{\"type\":\"progress\",\"line\":{n}}}\n"));
+        execute(&head, Source::Explicit(&ops), &faults, layout, &opts);
+        n += 1;
+    }
+    out(&format!("{{\"type\":\"ok\",\"replayed\":{n}}}\n"));
+    0
+}
+
 fn main() {
     let a = Args(std::env::args().collect());
     let cmd = a.0.get(1).map(|s| s.as_str()).unwrap_or("");
@@ -789,6 +849,8 @@ fn main() {
         "batch" => batch(&a),
         "replay" => replay(&a),
         "scale" => scale_cmd(&a),
+        "dump" => dump(&a),
+        "replay-many" => replay_many(&a),
         _ => die("usage: cactus-sim batch|replay ..."),
     };
     unsafe { alloc::_exit(code) }
